@@ -109,6 +109,13 @@ func cmdFaults(args []string) int {
 			return false
 		}
 		run.stats["fault."+label]++
+		if op.Fault.Store && (op.Kind == KAttest || op.Kind == KAttests || op.Kind == KPropose) {
+			for i, o := range rec.Obs {
+				if o.SigLen > 0 {
+					monFail = append(monFail, fmt.Sprintf("a signature was released at position %d although the write of the protection records failed :: %s", i, describeStep(rec)))
+				}
+			}
+		}
 		for _, o := range rec.Obs {
 			if (o.SigLen > 0) != (o.State == core.ResultSucceeded) {
 				monFail = append(monFail, fmt.Sprintf("signature present=%v with state %s :: %s", o.SigLen > 0, o.State, describeStep(rec)))
@@ -172,6 +179,24 @@ func cmdFaults(args []string) int {
 					}
 					if lastRec != nil && pos < len(lastRec.Obs) && lastRec.Obs[pos].SigLen > 0 {
 						monFail = append(monFail, fmt.Sprintf("a signature was released at position %d although no signing root exists for a domain of %d bytes :: %s", pos, 32+delta, describeStep(lastRec)))
+					}
+				}
+			}
+			// data that cannot be hashed (31 bytes), alone and byte-identical at several positions
+			if sh.kind == KSign || sh.kind == KMultisign {
+				short := rng.Bytes(31)
+				for _, npos := range []int{1, sh.n} {
+					op := mkOp(sh.kind, sh.n)
+					for p := 0; p < npos && p < sh.n; p++ {
+						op.Signs[sh.n-1-p].Data = append([]byte{}, short...)
+					}
+					if !exec(op, "", "data-length") {
+						return 2
+					}
+					for p := 0; p < npos && p < sh.n && lastRec != nil; p++ {
+						if pos := sh.n - 1 - p; pos < len(lastRec.Obs) && lastRec.Obs[pos].SigLen > 0 {
+							monFail = append(monFail, fmt.Sprintf("a signature was released at position %d although no signing root exists for data of 31 bytes :: %s", pos, describeStep(lastRec)))
+						}
 					}
 				}
 			}
